@@ -8,7 +8,7 @@ import Mathlib.Algebra.Field.Basic
 Over any finite field `F` with `q` elements: fix the adversary's errors `(δ, δ′) ≠ (0, 0)` at one recorded gate (and
 any constant `c`: the contribution of later gates that consume the attacked wire enters `T` as
 `(α + c)·(δ′ − r·δ)` with `c` independent of the attacked gate's `α`, of `r` and of `ρ`).  By
-`single_gate_attack_T` and `attack_accept_iff_domain` the run is accepted iff `ρ·((α + c)·(δ′ − r·δ)) = 0`.
+`single_attack_accept_iff` (`Props/C04Down.lean`; `single_gate_attack_T` for `c = 0`) the run is accepted iff `ρ·((α + c)·(δ′ − r·δ)) = 0`.
 Among the `q³` equally likely triples `(r, α, ρ)` at most `3q² − 3q + 1` are accepting: probability `≤ 3/q`.
 -/
 namespace IpaVerif.C04
